@@ -241,3 +241,58 @@ func C15Transport(o *world.Obs) *Result {
 	}
 	return r
 }
+
+// C17Transport: after a file of the encrypted backend was tampered with, the next request for
+// the resource is answered by the origin, never from the store.
+func C17Transport(o *world.Obs) *Result {
+	r := NewResult()
+	tamperedBefore := map[int]bool{} // exchange index -> a tamper step precedes it directly
+	exIdx := 0
+	pending := false
+	for _, st := range o.Sc.Steps {
+		switch st.Op {
+		case "corrupt":
+			pending = true
+		case "req":
+			if pending {
+				tamperedBefore[exIdx] = true
+				pending = false
+			}
+			exIdx++
+		}
+	}
+	for _, ex := range o.Exchanges {
+		if ex.Panic != "" {
+			r.Fail("C17", "panic-after-tamper", ex.Idx, "panic: %s", firstLine(ex.Panic))
+			continue
+		}
+		if !tamperedBefore[ex.Idx] {
+			continue
+		}
+		r.NonTrivial = true
+		if src, fromStore := o.FromStore(ex); fromStore {
+			r.Fail("C17", "tampered-entry-served", ex.Idx, "a file of the encrypted backend was tampered with (%v), yet stored reply s%d is served; %s", tamperOf(o), src.Serial, SummarizeExchange(o, ex))
+			continue
+		}
+		if ex.Resp == nil {
+			r.Fail("C17", "tamper-breaks-request", ex.Idx, "request failed after tampering: err=%q; %s", ex.Err, SummarizeExchange(o, ex))
+			continue
+		}
+		for _, c := range o.FgCalls(ex) {
+			if c.Kind == "resp" && world.TokOf(ex.Resp.Header) == c.Serial && !bytes.Equal(ex.Resp.Body, c.Body) {
+				r.Fail("C17", "origin-reply-damaged", ex.Idx, "origin reply forwarded with %d of %d bytes; %s", len(ex.Resp.Body), len(c.Body), SummarizeExchange(o, ex))
+			}
+		}
+		r.Label("answered-by-origin")
+	}
+	return r
+}
+
+func tamperOf(o *world.Obs) string {
+	for _, st := range o.Sc.Steps {
+		if st.Op == "corrupt" && st.Corrupt != nil {
+			return fmt.Sprintf("%s file#%d arg=%d", st.Corrupt.Kind, st.Corrupt.KeySel, st.Corrupt.Arg)
+		}
+	}
+	return ""
+}
